@@ -403,7 +403,13 @@ def check_property(prop, tier, seed, verbose=False):
         rc = 2
         for u in undecided: lines.append('UNDECIDED property=%s reason=%s' % (prop, u))
     level = pcfg.get('level', 'proof')
-    ev_extra = {'undecided': undecided, 'known_findings_hit': [k['what'] for k, _ in known_hits]}
+    # every KNOWN-FINDING line the check printed (failed known obligations AND known hits of the bounded searches)
+    _kf = [k['what'] for k, _ in known_hits]
+    for l in lines:
+        if l.startswith('KNOWN-FINDING: property=%s ' % prop):
+            w_ = l[len('KNOWN-FINDING: property=%s ' % prop):]
+            if w_ not in _kf: _kf.append(w_)
+    ev_extra = {'undecided': undecided, 'known_findings_hit': _kf}
     if rc == 2:
         # nothing was decided: say so in the evidence rather than leaving a stale file
         cover['explanation'] = 'UNDECIDED: ' + '; '.join(undecided)
